@@ -94,7 +94,10 @@ class Interp:
         x0, x1 = self.xs[prev_idx : prev_idx + 2]
         y0, y1 = self.ys[prev_idx : prev_idx + 2]
 
-        return y0 + (y1 - y0) * (x - x0) / (x1 - x0)
+        t = (x - x0) / (x1 - x0)
+
+        # this form is exact on both nodes
+        return (1 - t) * y0 + t * y1
 
     def _lagrange(self, x):
 
